@@ -326,8 +326,6 @@ pub fn spell_uint(x: &Big, u: &mut U) -> J {
         Spelling::FloatDot0,
         Spelling::HexUpper,
         Spelling::FloatSci,
-        Spelling::DecStringLeadingZeros,
-        Spelling::HexLeadingZeros,
     ];
     let start = u.below(order.len());
     let salt = u.u32() as u64;
@@ -347,7 +345,8 @@ pub fn spell_int(neg: bool, mag: &Big, u: &mut U) -> J {
     match u.below(4) {
         0 if mag.bit_len() <= 63 => J::Raw(format!("-{}", mag.to_dec())),
         1 if mag.bit_len() <= 53 => J::Raw(format!("-{}.0", mag.to_dec())),
-        2 => J::Raw(format!("\"-0x{}\"", mag.to_hex())),
+        // (a negative hex string "-0x.." is accepted today but not something the properties promise;
+        // it is exercised by C09's lenient controls only)
         _ => J::Raw(format!("\"-{}\"", mag.to_dec())),
     }
 }
